@@ -142,6 +142,16 @@ func (p *Plan) next(store, op, dg string, n int, counted bool) (int, FaultKind) 
 	return len(p.log) - 1, f
 }
 
+// seqOf returns the position (Seq) of the call logged at index idx.
+func (p *Plan) seqOf(idx int) int {
+	p.mu.Lock()
+	defer p.mu.Unlock()
+	if idx < len(p.log) {
+		return p.log[idx].Seq
+	}
+	return 0
+}
+
 func (p *Plan) setMissing(idx, n int) {
 	p.mu.Lock()
 	if idx < len(p.log) {
@@ -188,6 +198,11 @@ type Store struct {
 	// BeforePut is invoked with the received bytes before they are stored
 	// (and before an after-read fault is applied).
 	BeforePut func(d digest.Digest, data []byte)
+	// OnCall, if set, is invoked at the start of every counted call
+	// (FindMissing, Put) with its operation name and position, before any
+	// fault is applied and before the buffer is read. The caller of the
+	// store is blocked meanwhile.
+	OnCall func(op string, seq int)
 
 	mu         sync.Mutex
 	blobs      map[string][]byte
@@ -293,6 +308,9 @@ func (s *Store) GetFromComposite(ctx context.Context, parentDigest, childDigest 
 // Put implements BlobAccess.
 func (s *Store) Put(ctx context.Context, d digest.Digest, b buffer.Buffer) (err error) {
 	idx, f := s.plan.next(s.Name, "Put", d.String(), 0, true)
+	if s.OnCall != nil {
+		s.OnCall("Put", s.plan.seqOf(idx))
+	}
 	rec := PutRecord{Digest: d}
 	defer func() {
 		rec.Err = err
@@ -345,6 +363,9 @@ func (s *Store) Put(ctx context.Context, d digest.Digest, b buffer.Buffer) (err 
 // FindMissing implements BlobAccess.
 func (s *Store) FindMissing(ctx context.Context, digests digest.Set) (digest.Set, error) {
 	idx, f := s.plan.next(s.Name, "FindMissing", "", digests.Length(), true)
+	if s.OnCall != nil {
+		s.OnCall("FindMissing", s.plan.seqOf(idx))
+	}
 	switch f {
 	case FaultErrDiscard, FaultErrAfterRead, FaultSticky:
 		s.plan.setErr(idx, ErrInjected)
